@@ -8,6 +8,9 @@ R14.2  count: with the Laguerre loop abstracted to "a root G was found", the gen
 R14.3  deflation wiring: the divisor is x − G, the recursion runs on the *quotient* (quotient·(x − G) + remainder = p), and every
        value is polished by Newton on the *original* polynomial.  Same three facts in hermite_zeros.
 R14.4  guards: negligible leading coefficient ⇒ Err; non-zero constant ⇒ Err; exhausted iteration cap ⇒ Err.
+R14.6  one Laguerre iteration (p, p', p'' at the iterate as free complex numbers): the step is n/(G ± √((n−1)(nH − G²))), the iterate
+       is updated by x − a, and the sign is chosen by a test equivalent to |G+s| > |G−s| for *complex* values (a necessary condition
+       for the iteration not to overshoot on non-real roots).
 R14.5  base cases and wiring of legendre_zeros / hermite_zeros / laguerre_zeros (n = 0, 1; n zeros, real parts, for n >= 2).
 """
 import sympy as sp
@@ -115,8 +118,8 @@ def check_general_branch(F, run, roots, tier):
         outs_ok = all(isinstance(o, sp.Expr) and o.func == POLISH for o in out)
         cands = [o.args[0] for o in out] if outs_ok else []
         G0 = sp.Symbol("G0", real=True)
-        run.check(outs_ok and cands and cands[0] == G0 and len(set(map(str, cands))) == len(cands), "R14.2", dp, "one-to-one:" + inst, where,
-                  "the returned values are not the polished Laguerre root followed by the polished results of the recursion, one for one")
+        run.check(outs_ok and cands and G0 in cands and len(set(map(str, cands))) == len(cands), "R14.2", dp, "one-to-one:" + inst, where,
+                  "the returned values are not the polished Laguerre root together with the polished results of the recursion, one for one (the order is free: the result is a multiset)")
         # deflation: first divide call divides the original by x − G0, recursion runs on its quotient
         divs = sh.get("divide_args", [])
         recs = sh.get("recursive_args", [])
@@ -174,6 +177,138 @@ def check_guards(F, run, roots):
         incs = [s for s in w["body"]["stmts"] if s.get("e", {}).get("k") == "AssignOp" and s["e"]["op"] == "AddAssign" and peel(s["e"]["l"]).get("name") == peel(cnd["l"]).get("name")]
         ok = ok and len(incs) == 1
     run.check(ok, "R14.4", dp, "laguerre-counter-loop", where, "the Laguerre iteration is not a counter loop bounded by n_max")
+
+
+class LaguerreStep(vecint.VInterp):
+    """One iteration of the Laguerre loop with p, p', p'' at the iterate as free symbols; the locals that hold G = p'/p and the
+    square root are re-bound to free complex numbers after their formulas have been recorded (instance table: LAGUERRE_LOCALS)."""
+    LAGUERRE_LOCALS = {"deriv_quotient": "G", "sqrt": "S"}
+
+    def ev_MCall(self, n):
+        if n["name"] == "evaluate" and (n.get("def") or "").startswith("polynomial::Polynomial"):
+            return self.shared["P"]
+        if n["name"] == "evaluate_derivative" and (n.get("def") or "").startswith("polynomial::Polynomial"):
+            return (self.shared["dP"], self.shared["ddP"])
+        if n["name"] == "abs" and not n["args"]:
+            return sp.Abs(self.num(self.deref(self.ev(n["recv"])), n))
+        return vecint.VInterp.ev_MCall(self, n)
+
+    def bind(self, pat, val, node=None):
+        if pat.get("k") == "Bind" and pat["name"] in self.LAGUERRE_LOCALS:
+            self.shared.setdefault("formulas", {})[pat["name"]] = val
+            val = self.shared["free"][self.LAGUERRE_LOCALS[pat["name"]]]
+        return vecint.VInterp.bind(self, pat, val, node)
+
+    def ev_If(self, n):
+        c = self.ev(n["c"])
+        if "e" in n and isinstance(c, sp.Basic) and c.atoms(sp.Symbol) & set(self.shared["free_parts"]):
+            t = self.ev(n["t"])
+            e = self.ev(n["e"])
+            if isinstance(t, sp.Expr) and isinstance(e, sp.Expr):
+                self.shared.setdefault("choices", []).append((c, t, e))
+                return t
+        if isinstance(c, sp.Basic) and c.has(self.shared["P"]):
+            return None      # `if val.abs() < tol { break }`: not converged yet
+        return vecint.VInterp.ev_If(self, n)
+
+    def ev_Call(self, n):
+        d = callee(n) or ""
+        if d.split("::")[-1] in sym.FROM_PRIM and "Complex" in (n.get("ty") or ""):
+            return sym.Variant("Some", [self.ev(n["args"][0])])
+        return vecint.VInterp.ev_Call(self, n)
+
+
+def cparts(name):
+    return sp.Symbol(name + "_re", real=True) + sp.I * sp.Symbol(name + "_im", real=True)
+
+
+def check_laguerre_step(F, run, roots):
+    dp = "Polynomial::roots"
+    loops = [n for n in walk(roots["body"]) if n.get("k") == "While" and any(x.get("k") == "MCall" and x["name"] == "evaluate_derivative" for x in walk(n["body"]))]
+    if len(loops) != 1:
+        run.broken("R14.6", dp, "laguerre-loop", F.loc(roots), "Laguerre loop not found")
+        return
+    loop = loops[0]
+    where = F.loc(roots, loop)
+    deg = 5
+    it = LaguerreStep(F, roots)
+    P, dP, ddP, x = sp.Symbol("P"), sp.Symbol("dP"), sp.Symbol("ddP"), sp.Symbol("xk")
+    g, sq = cparts("G"), cparts("S")
+    it.shared.update({"P": P, "dP": dP, "ddP": ddP, "free": {"G": g, "S": sq}, "free_parts": list(g.free_symbols | sq.free_symbols)})
+    it.if_hook = lambda i, n, c: PI.generic_decide(c)
+    it.bind(roots["params"][0], PI.poly(PI.symbols("c", deg + 1)), roots)
+    it.bind(roots["params"][1], PI.TOL, roots)
+    it.bind(roots["params"][2], sp.Symbol("n_max", integer=True, positive=True), roots)
+    from bsa.hir import pat_binds
+    for n in walk(roots["body"]):
+        if n.get("k") == "LetS":
+            for i, nm in pat_binds(n["pat"]):
+                if nm == "guess":
+                    it.env[i], it.names[i] = x, nm
+                elif nm == "k":
+                    it.env[i], it.names[i] = sp.Integer(0), nm
+                elif nm in ("complex", "derivative"):
+                    it.env[i], it.names[i] = sp.Symbol(nm), nm
+    try:
+        it.ev(loop["body"])
+    except (sym.Break, sym.Continue):
+        pass
+    except (sym.Unsupported, vecint.IndexPanic) as e:
+        run.broken("R14.6", dp, "laguerre-step", where, "cannot interpret one Laguerre iteration: %s" % e)
+        return
+    xnew = None
+    for i, nm in it.names.items():
+        if nm == "guess":
+            xnew = it.env.get(i)
+    forms = it.shared.get("formulas", {})
+    ch = it.shared.get("choices", [])
+    if not run.check(set(forms) == set(LaguerreStep.LAGUERRE_LOCALS) and len(ch) == 1 and xnew is not None, "R14.6", dp, "sign-choice-site", where,
+                     "expected the Laguerre locals %s and one choice between the two denominators (found locals %s, %d choices)" % (sorted(LaguerreStep.LAGUERRE_LOCALS), sorted(forms), len(ch))):
+        return
+    n_ = sp.Integer(deg)
+    Gf = dP / P
+    # the recorded square root was computed with the *free* G already substituted: S² must be (n−1)(n·H − G²), H = G² − p''/p
+    H = g ** 2 - ddP / P
+    s2 = (n_ - 1) * (n_ * H - g ** 2)
+    okG = sym.is_zero(sp.simplify(forms["deriv_quotient"] - Gf))
+    okS = sym.is_zero(sp.simplify(sp.expand(forms["sqrt"] ** 2) - sp.expand(s2)))
+    run.check(okG and okS, "R14.6", dp, "laguerre-formula", where,
+              "G or the square root is not p'/p resp. sqrt((n−1)(n·H − G²)) with H = G² − p''/p (G: %s, sqrt²: %s)" % (forms["deriv_quotient"], sp.simplify(forms["sqrt"] ** 2)),
+              sample="G = p'/p, s = √((n−1)(nH − G²))")
+    cond, a_t, a_e = ch[0]
+    dens = [sp.simplify(n_ / a_t), sp.simplify(n_ / a_e)]
+    okd = {sp.simplify(sp.expand(dens[0] - g)), sp.simplify(sp.expand(dens[1] - g))} == {sp.simplify(sp.expand(sq)), sp.simplify(sp.expand(-sq))}
+    run.check(okd, "R14.6", dp, "step=n/(G±s)", where, "the two candidate steps are not n/(G+s) and n/(G−s): denominators %s, %s" % (dens[0], dens[1]), sample="a = n/(G ± s)")
+    run.check(sym.is_zero(sp.simplify(xnew - (x - a_t))), "R14.6", dp, "update", where, "the iterate is not updated as x − a")
+    # the sign choice must maximise the modulus of the denominator: cond ⇔ |den_then| > |den_else| as polynomial inequalities in the real parts
+    good = False
+    shown = str(cond)[:120]
+    try:
+        if isinstance(cond, (sp.Gt, sp.Ge, sp.Lt, sp.Le)):
+            lhs, rhs = cond.lhs, cond.rhs
+            if isinstance(cond, (sp.Lt, sp.Le)):
+                lhs, rhs = rhs, lhs
+            def nonneg(e):
+                return e.func == sp.Abs or (isinstance(e, sp.Pow) and e.exp == sp.Rational(1, 2))
+
+            def square(e):
+                if e.func == sp.Abs:
+                    return sp.expand(e.args[0] * sp.conjugate(e.args[0]), complex=True)
+                return sp.expand(e.base)
+            if nonneg(lhs) and nonneg(rhs):
+                code = sp.expand(square(lhs) - square(rhs))      # both sides are moduli: compare their squares
+            else:
+                code = sp.expand(lhs - rhs, complex=True)
+            wantp = sp.expand(dens[0] * sp.conjugate(dens[0]) - dens[1] * sp.conjugate(dens[1]), complex=True)
+            code, wantp = sp.simplify(code), sp.simplify(wantp)
+            if code != 0 and wantp != 0:
+                ratio = sp.simplify(code / wantp)
+                good = bool(ratio.is_number and ratio.is_positive)
+    except Exception:
+        good = False
+    run.check(good, "R14.6", dp, "sign-maximises-denominator", where,
+              "the choice between n/(G+s) and n/(G−s) is made by `%s`, which is not equivalent to |G+s| > |G−s| for complex iterates: the smaller denominator can be chosen, the step "
+              "overshoots and the iteration runs out of iterations on polynomials with non-real roots" % shown, sample="choice: |G+s| > |G−s|")
 
 
 class ZerosInterp(vecint.VInterp):
@@ -261,6 +396,7 @@ def run(F, run, tier):
     check_closed_forms(F, run, roots)
     check_general_branch(F, run, roots, tier)
     check_guards(F, run, roots)
+    check_laguerre_step(F, run, roots)
     check_zeros(F, run, tier)
     run.assumptions += ["the Laguerre iteration is abstracted to 'a value G was found' and Newton polishing is uninterpreted: that they deliver *the* roots, one-to-one and accurately, "
                         "is numerical and not decided", "exact arithmetic, generic coefficients"]
